@@ -85,6 +85,13 @@ class Snippet:
                 self._request_exec.end = i - 1
                 self._response_handling.start = i
 
+        # A sample without a "Handle the response" line (void rpcs) leaves the request
+        # execution open: close it at the end of the snippet; there is no response handling.
+        if self._request_exec.start and not self._request_exec.end:
+            self._request_exec.end = self._full_snippet.end
+        if not self._response_handling.start:
+            self._response_handling.end = 0
+
         self.metadata.segments.extend(
             [
                 self._full_snippet,
